@@ -124,10 +124,35 @@ def run(ctx):
     cd = A.methods["config_dict"]
     reads = any(isinstance(n, ast.Attribute) and n.attr == "_last_sampler_type" for n in ast.walk(cd.node))
     ctx.decide(reads, "C14.config", cd.ident, loc_of(cd), "config_dict reports the last requested sampler type", "config_dict does not report the sampler type", disc="report")
+    # value-based: once a sampler was requested, the dict names it and carries that sampler's configuration
+    me = T.atom(cd.params[0])
+
+    def _as(c):
+        if c[0] == "f" and c[1] == "builtins.hasattr" and c[2] == (me, T.K("_last_sampler_type")):
+            return True
+        if c == T.atom("include_sampler_config"):
+            return True
+        if c[0] == "is" and c[2] == T.NONE and c[1][0] == "f" and "sampler" in c[1][1]:
+            return False
+        if c[0] == "is" and c[2] == T.NONE and c[1] == ("attr", me, "_sampler"):
+            return False
+        return None
+    evc = Evaluator(repo, max_depth=1, assume=_as)
+    rc = T.strip_raise(evc.run(cd, A))
+    got = dict(rc[1]) if rc[0] == "d" else {}
+    st_ = got.get(T.K("sampler_type"))
+    sc_ = got.get(T.K("sampler_config"))
+    okv = st_ == ("attr", me, "_last_sampler_type") and sc_ is not None and sc_[0] == "f" and sc_[1].endswith("config_dict") \
+        and any(x_ == ("attr", me, "_sampler") for x_ in T.subterms(sc_))
+    ctx.decide(okv, "C14.config", cd.ident, loc_of(cd), "after a sampler was requested the configuration holds sampler_type = the last requested sampler and that sampler's own configuration",
+               f"with a sampler requested, config_dict gives sampler_type = {T.show(st_)[:60] if st_ else 'missing'}, sampler_config = {T.show(sc_)[:60] if sc_ else 'missing'}: "
+               "the stored configuration does not name the sampler that writes the checkpoint", disc="report|value")
 
 
 _A = "src/aspire/aspire.py"
 MUTANTS = [
+    M("sampler type only reported before any run", _A, "if hasattr(self, \"_last_sampler_type\"):\n            config[\"sampler_type\"] = self._last_sampler_type", "if not hasattr(self, \"_last_sampler_type\"):\n            config[\"sampler_type\"] = self._last_sampler_type", "C14.config"),
+    M("sampler configuration of nobody", _A, "config[\"sampler_config\"] = self.sampler.config_dict(**kwargs)", "config[\"sampler_config\"] = {}", "C14.config"),
     M("flow kept when the file already has one", _A, "if self.flow is not None:\n                    # Always store the flow the sampler is about to use: a\n                    # flow already in the file may come from an earlier fit\n                    if \"flow\" in h5_file:\n                        del h5_file[\"flow\"]\n                    self.save_flow(h5_file)",
       "if self.flow is not None and \"flow\" not in h5_file:\n                    self.save_flow(h5_file)", "C14.flow"),
     M("flow rewritten without deleting", _A, "if \"flow\" in h5_file:\n                        del h5_file[\"flow\"]\n                    self.save_flow(h5_file)\n                    saved_flow = True", "self.save_flow(h5_file)\n                    saved_flow = True", "C14.flow"),
